@@ -64,7 +64,7 @@ Print Assumptions C14_nothing_sent_upgrade.
 (* Non-vacuity: a subchart required under the alias "web" whose schema (port: integer 1..65535,
    required) is violated through the parent's section; accepted with the defaults. *)
 Example C14_gate_example :
-  match process_dependencies (fun _ _ => true) (ex_top false) ex_vals with
+  match process_dependencies (fun _ _ => true) (ex_top []) ex_vals with
   | Ok c' => to_render_values c' ex_vals false = RVSchemaErr ["web"]
              /\ to_render_values c' [] false
                 = RVOk [("web", VMap [("global", VMap []); ("port", VNum 80)])]
@@ -78,13 +78,13 @@ Print Assumptions C14_gate_example.
    values are validated, so a real install of a chart with crds/ and violating values has
    already created the CRDs when it fails. *)
 Example C14_crd_caveat :
-  install_trace (fun _ _ => true) ex_flags (ex_top true) ex_vals
+  install_trace (fun _ _ => true) ex_flags (ex_top ["crds/crd.yaml"]) ex_vals
   = ([KIsReachable; SRead; KCreateCRDs; KGetCapabilities], FailSchema ["web"]).
 Proof. exact crd_caveat. Qed.
 Print Assumptions C14_crd_caveat.
 
 Example C14_install_ok_example :
-  install_trace (fun _ _ => true) ex_flags (ex_top false) []
+  install_trace (fun _ _ => true) ex_flags (ex_top []) []
   = ([KIsReachable; SRead; KGetCapabilities; KBuild; KBuild; KCreateNamespace; SCreate; KWait; SUpdate], Done).
 Proof. exact install_ok_example. Qed.
 Print Assumptions C14_install_ok_example.
